@@ -20,7 +20,7 @@ CHECKS = {
     technique="TLA+ reference semantics + TLC law checking; trace validation of every result of the real views by TLC",
     design="5/C04"),
  "C05": dict(
-    text="TLC checks Python's slice.indices characterisation per axis (MC_Slice.tla: selected positions = range(start',stop',step), defaults, negative bounds) on every (n,start,stop,step) of the scope; TLC exports the per-axis and a multi-axis family, the driver runs them under every slice encoding (packed, pairs, variadic, list-of-either, array<int,3>) and TraceOps.tla decides shape and elements; seeded multi-axis specifications likewise.",
+    text="TLC checks Python's slice.indices characterisation per axis (MC_Slice.tla: selected positions = range(start',stop',step), defaults, negative bounds) on every (n,start,stop,step) of the scope; TLC exports the per-axis and a multi-axis family, the driver runs them under every slice encoding (packed, pairs, variadic, list-of-either, array<int,3>) and TraceOps.tla decides shape and elements; seeded multi-axis specifications likewise. The same tables also run through the writable front end view::mutable_slice read back (encoding `mutable`).",
     note="Trusted: TLC, Slice.tla, drv_slice.cpp (type-menu dispatch of None-ness). Extents up to 2^31-9 are exercised at the index-math level (op slice_index, BIG scope of MC_Slice). Two input classes are known findings; three defects were repaired by fix: commits.",
     technique="TLA+ reference semantics + TLC law checking per axis; TLC-generated case tables replayed; trace validation by TLC",
     design="5/C05"),
@@ -30,7 +30,7 @@ CHECKS = {
     technique="TLA+ reference + implementation-shaped model, refinement and laws checked by TLC; TLC-generated tables replayed; trace validation",
     design="5/C06"),
  "C07": dict(
-    text="TLC checks the laws of element-wise application (result shape = broadcast shape, operand order visible through the non-commutative recording operation mix, commutative ops, outer indexing) on all pairs of shapes of the scope; the recording operation is driven through the real ufunc machinery on every pair of shapes exported by TLC (array and scalar operands, outer), every integer-computable named ufunc on wiring-revealing shape pairs with in-domain data, and TraceOps.tla decides shape, every element and the result element class.",
+    text="TLC checks the laws of element-wise application (result shape = broadcast shape, operand order visible through the non-commutative recording operation mix, commutative ops, outer indexing) on all pairs of shapes of the scope; the recording operation is driven through the real ufunc machinery on every pair of shapes exported by TLC (array and scalar operands, outer), every integer-computable named ufunc on wiring-revealing shape pairs with in-domain data, and TraceOps.tla decides shape, every element and the result element class. Parameterised activations are driven with a parameter value in every regime of their formula (slope below / above 1 and negative, thresholds inside the data range, clamp interval excluding 0).",
     note="Trusted: TLC, Ufunc.tla, drv_ufunc.cpp. Ternary where runs through drv_select with negative / zero / fractional conditions. Transcendental/float-only ufuncs are not interpreted by TLC; their shared wiring is covered by the recording operation, their scalar functors are not checked.",
     technique="TLA+ reference semantics with a recording (non-commutative) operation; TLC law checking; trace validation of real ufunc results by TLC",
     design="5/C07"),
